@@ -190,6 +190,30 @@ def run_path(pp, solver, tvars, entry, n, decisions, extra_pc=(), nd_shared=None
         s0 = snaps.get(id(st))
         if s0 is not None:
             states.append((s0[1], snap(parser, diags)))
+    def on_ev(m, fn, args):
+        # create_node_* callback fires: the announced node must already head a closed, properly nested subtree
+        if args[1] != 1: return
+        parser = args[0].get(); node = args[3]
+        d = parser.f[P['cst']].f[CST['data']]
+        nodes = [node_plain(x, pp) for x in d.f[CD['nodes']].items]
+        if not (0 <= node < len(nodes)) or nodes[node][0] != 'R':
+            cbinfo.append(f'create callback for NodeRef({node}) which is not a rule node (vector length {len(nodes)})'); return
+        end = node + nodes[node][2]
+        if end >= len(nodes): cbinfo.append(f'create callback for NodeRef({node}): extent {end} outside vector of length {len(nodes)}'); return
+        def chk(i, limit):
+            e = i + nodes[i][2]
+            if e > limit: return f'create callback for NodeRef({node}): descendant {i} extent {e} leaves its parent (limit {limit})'
+            j = i + 1
+            while j <= e:
+                if nodes[j][0] == 'R':
+                    mm = chk(j, e)
+                    if mm: return mm
+                    j += nodes[j][2] + 1
+                else: j += 1
+            return None
+        mm = chk(node, end)
+        if mm: cbinfo.append(mm)
+    r.hooks['Parser::ev'] = on_ev
     r.post_hooks['Parser::get_state'] = post_get
     r.post_hooks['Parser::set_state'] = post_set
     # lasso detection at loop heads of emitted rule functions
@@ -222,7 +246,7 @@ def run_path(pp, solver, tvars, entry, n, decisions, extra_pc=(), nd_shared=None
     res.steps = r.steps
     res.decisions = list(r.decisions); res.forks = r.forks
     res.diags = [(d.f[0].f[0], d.f[0].f[1], d.f[1], int(d.f[2]), d.f[3]) for d in diags.items]
-    res.log = log; res.states = states
+    res.log = log; res.states = states; res.cb = cbinfo; res.final = None
     res.nodes = None; res.walk = None; res.walk_err = None
     if cst is not None:
         data = cst.f[CST['data']]
